@@ -667,6 +667,8 @@ fn id_seed(scn: &Value) -> u64 {
 
 fn run_scenario(scn: &Value, scale: Scale, tmpdir: &str) {
     let id = scn.get("id").cloned().unwrap_or(json!("x"));
+    // watchdog: a scenario takes milliseconds; a blocked loop thread is killed by SIGALRM (the engine reports the scenario)
+    unsafe { libc::alarm(30) };
     let join = scn.get("join").and_then(|j| j.as_i64()).unwrap_or(0) == 1;
     let nb0: Vec<bool> = (0..3)
         .map(|i| scn["nb0"].get(i).and_then(|x| x.as_i64()).unwrap_or(0) == 1)
@@ -838,6 +840,12 @@ fn run_scenario(scn: &Value, scale: Scale, tmpdir: &str) {
                     *world.ads[e - 1].borrow_mut() = Some(a);
                 }
                 obs_event("adapt", json!({"i": i, "f": e, "r": rs, "nbb": before}));
+                // harness guard: an adapter that left its fd blocking (logged above, flagged by the trace specification)
+                // would block the loop thread for ever in the next read(); continue with the fd forced non-blocking
+                if rs == "ok" && getfl_nb(world.obsfd[e - 1].get()) == 0 {
+                    set_nb(world.obsfd[e - 1].get(), true);
+                    log("forced_nonblock", json!({"i": i, "f": e}));
+                }
             }
             "drop" | "into_inner" => {
                 let e = st["e"].as_u64().unwrap_or(1) as usize;
@@ -1047,6 +1055,7 @@ fn run_scenario(scn: &Value, scale: Scale, tmpdir: &str) {
     *world.occ.borrow_mut() = None;
     W.with(|w| *w.borrow_mut() = None);
     let _ = catch_unwind(AssertUnwindSafe(move || drop(el)));
+    unsafe { libc::alarm(0) };
 }
 
 fn main() {
@@ -1077,6 +1086,7 @@ fn main() {
                 std::process::exit(2);
             }
         };
+        eprintln!("drive_asyncio: running {}", scn["id"]);
         run_scenario(&scn, scale, &tmpdir);
         flush_to(&mut out).unwrap();
         n += 1;
